@@ -1,0 +1,23 @@
+//go:build verif
+
+package verifx
+
+import (
+	ih "github.com/google/certificate-transparency-go/internal/witness/cmd/witness/internal/http"
+	"github.com/google/certificate-transparency-go/internal/witness/cmd/witness/internal/witness"
+)
+
+// Witness is the witness implementation.
+type Witness = witness.Witness
+
+// Opts are the witness construction options.
+type Opts = witness.Opts
+
+// Server is the HTTP front end of the witness.
+type Server = ih.Server
+
+// New constructs a witness.
+var New = witness.New
+
+// NewServer constructs the HTTP front end of a witness.
+var NewServer = ih.NewServer
